@@ -17,4 +17,12 @@ def generate():
         f'def controlActiveReadonly : Bool := {lbool(bool(HasOutputModule.control_active.readonly))}',
         f'def controlledByReadonly : Bool := {lbool(bool(HasControlledBy.controlled_by.readonly))}',
         f'def insideRWInitial : Nat := {int(StructParam.insideRW)}',
+        '/-- default of `omit_unchanged_within` in microseconds (frappy.params): not 0, so whether an unchanged value is announced again depends on timing -/',
+        f'def omitUnchangedWithinDefaultUs : Nat := {int(round(float(_omit_default()) * 1e6))}',
     ]
+
+
+def _omit_default():
+    import frappy.params  # noqa: F401  (sets the default)
+    from frappy.lib import generalConfig
+    return generalConfig.defaults['omit_unchanged_within']
